@@ -402,6 +402,19 @@ func (x *Exec) registerLib() {
 		x.note("library spec: Output.Warnf / Debugf only print (no effect on interpreter state)")
 		return &Struct{}, true
 	}, mods: noMods}
+	x.lib["(*github.com/cosmos72/gomacro/base.Signals).IsEmpty"] = &libFn{apply: func(f *Frame, st *State, ins ssa.Instruction, args []Value) (Value, bool) {
+		x.note("library spec: Signals.IsEmpty() == (Sync == 0 && Debug == 0 && Async == 0) (an atomic 32-bit load of the four bytes; the padding byte is never written)")
+		fn := x.curCallee
+		stT := fn.Params[0].Type().Underlying().(*types.Pointer).Elem()
+		su := stT.Underlying().(*types.Struct)
+		res := B.True()
+		for i := 0; i < 3; i++ {
+			ft := su.Field(i).Type()
+			v := x.load(st, x.fieldAddr(args[0], stT, i), ft).(*smt.Term)
+			res = B.And(res, B.Eq(v, B.BVC(0, v.S.W)))
+		}
+		return res, true
+	}, mods: noMods}
 	x.lib["(*github.com/cosmos72/gomacro/base/output.Output).Warnf"] = noeffect
 	x.lib["(*github.com/cosmos72/gomacro/base/output.Output).Debugf"] = noeffect
 	x.lib["(*github.com/cosmos72/gomacro/base/output.Stringer).Errorf"] = noret
